@@ -1,0 +1,62 @@
+//go:build verif
+
+// Contract for the verifier of the vector lookup argument (plookup) of this curve (comment-only; installed by
+// /verif/gcv gen-contracts). Layer as for the permutation argument: scalars in an abstract commutative ring,
+// mathematical integers for *big.Int, opaque group elements; Fiat-Shamir derivations and KZG verifications are
+// opaque calls captured at the call site. With the claimed values at nu in the order (h1, h2, t, z, f, h) and at
+// g*nu in the order (h1, h2, t, z), g' = g^(n-1), Z = nu^n - 1, nil is returned only if
+//   (relation)  ((L_n (h1 - h2s) alpha + L_n (z - 1)) alpha + L_0 (z - 1)) alpha
+//                 + (nu - g') z (1 + beta)(gamma + f)(t + beta ts + gamma(1 + beta))
+//                 - (nu - g') zs (h1 + beta h1s + gamma(1 + beta))(h2 + beta h2s + gamma(1 + beta))  ==  h Z,
+//               L_0 = Z/(nu - 1), L_n = Z/(nu - g'), challenges beta, gamma, alpha, nu in derivation order;
+//   (openings)  both batched openings verified, on (h1, h2, t, z, f, h) at nu and on (h1, h2, t, z) at g*nu;
+//   (generator) g^(n/2) != 1 and g^n == 1.
+
+package plookup
+
+//@ func VerifyLookupVector
+//@ layer ring fr.Element bigint big.Int opaque bls24315.G1Affine bls24315.G2Affine bls24315.LineEvaluationAff
+//@ option opaque-calls
+//@ option nomerge
+//@ option split-post
+//@ requires len(proof.BatchedProof.ClaimedValues) >= 6 && len(proof.BatchedProofShifted.ClaimedValues) >= 4 && proof.size >= 1 && proof.size <= 1099511627776
+//@ ghost beta = 0
+//@ ghost gamma = 0
+//@ ghost alpha = 0
+//@ ghost nu = 0
+//@ ghost open1 = false
+//@ ghost open2 = false
+//@ cut after call deriveRandomness #1
+//@ + ghost beta = callresult0
+//@ cut after call deriveRandomness #2
+//@ + ghost gamma = callresult0
+//@ cut after call deriveRandomness #3
+//@ + ghost alpha = callresult0
+//@ cut after call deriveRandomness #4
+//@ + ghost nu = callresult0
+//@ cut after call BatchVerifySinglePoint #1
+//@ + ghost open1 = isnil(callresult) && len(callarg0) == 6 && callarg0[0] == proof.h1 && callarg0[1] == proof.h2 && callarg0[2] == proof.t && callarg0[3] == proof.z && callarg0[4] == proof.f && callarg0[5] == proof.h && same(callarg1, &proof.BatchedProof) && callarg2 == nu
+//@ cut after call BatchVerifySinglePoint #2
+//@ + ghost open2 = isnil(callresult) && len(callarg0) == 4 && callarg0[0] == proof.h1 && callarg0[1] == proof.h2 && callarg0[2] == proof.t && callarg0[3] == proof.z && same(callarg1, &proof.BatchedProofShifted) && callarg2 == nu * proof.g
+//@ ghost-final h1 = proof.BatchedProof.ClaimedValues[0]
+//@ ghost-final h2 = proof.BatchedProof.ClaimedValues[1]
+//@ ghost-final tt = proof.BatchedProof.ClaimedValues[2]
+//@ ghost-final zz = proof.BatchedProof.ClaimedValues[3]
+//@ ghost-final ff = proof.BatchedProof.ClaimedValues[4]
+//@ ghost-final hh = proof.BatchedProof.ClaimedValues[5]
+//@ ghost-final h1s = proof.BatchedProofShifted.ClaimedValues[0]
+//@ ghost-final h2s = proof.BatchedProofShifted.ClaimedValues[1]
+//@ ghost-final ts = proof.BatchedProofShifted.ClaimedValues[2]
+//@ ghost-final zs = proof.BatchedProofShifted.ClaimedValues[3]
+//@ ghost-final gp = rexp(proof.g, proof.size - 1)
+//@ ghost-final zn = rexp(nu, proof.size) - 1
+//@ ghost-final l0 = zn * inv(nu - 1)
+//@ ghost-final ln = zn * inv(nu - gp)
+//@ ghost-final w = gamma * (1 + beta)
+//@ ghost-final num = (nu - gp) * zz * (1 + beta) * (gamma + ff) * (tt + beta*ts + w) - (nu - gp) * zs * (h1 + beta*h1s + w) * (h2 + beta*h2s + w)
+//@ ghost-final half = rexp(proof.g, proof.size / 2)
+//@ ensures[relation] isnil(result) ==> iszero(((ln*(h1 - h2s)*alpha + ln*(zz - 1))*alpha + l0*(zz - 1))*alpha + num - hh*zn)
+//@ ensures[openings] isnil(result) ==> open1 && open2
+//@ ensures[generator] isnil(result) ==> !iszero(half - 1) && iszero(half*half - 1)
+//@ modifies nothing
+//@ end
